@@ -30,8 +30,10 @@ def _case_split(z3, smt2, timeout_ms):
             walk(c)
     for f in rest:
         walk(f)
-    if not terms or not sks:
+    if not sks:
         return None
+    if not terms:
+        return _eq_split(z3, rest, sks, timeout_ms)
 
     def unsat_with(extra):
         s = z3.Solver()
@@ -47,7 +49,101 @@ def _case_split(z3, smt2, timeout_ms):
             cases = [c + [rel] for c in cases for rel in (sk < t, sk == t, sk > t)]
         if all(unsat_with(c) for c in cases):
             return "%d cases on %s" % (len(cases), t)
-    return None
+    return _eq_split(z3, rest, sks, timeout_ms)
+
+
+def _eq_split(z3, fs, sks, timeout_ms):
+    """read-over-write expansions leave  ite(sk == t, new, old[sk])  in the goal: distinguish  sk == t1 | sk == t2 | neither
+    for every skolem index (a complete case distinction) and decide each case by E-matching"""
+    cands = {s.get_id(): [] for s in sks}
+    ids = {s.get_id(): s for s in sks}
+    seen = set()
+
+    def walk(t):
+        if t.get_id() in seen:
+            return
+        seen.add(t.get_id())
+        if z3.is_quantifier(t):
+            return
+        if z3.is_eq(t) and t.arg(0).sort().kind() == z3.Z3_INT_SORT:
+            a, b = t.arg(0), t.arg(1)
+            for x, y in ((a, b), (b, a)):
+                if x.get_id() in ids and y.get_id() not in ids and not any(y.eq(c) for c in cands[x.get_id()]):
+                    cands[x.get_id()].append(y)
+        for c in t.children():
+            walk(c)
+    for f in fs:
+        if not z3.is_quantifier(f):
+            walk(f)
+    use = [(ids[k], v[:3]) for k, v in cands.items() if v][:2]
+    if not use:
+        return _ite_split(z3, fs, ids, timeout_ms)
+    cases = [[]]
+    for sk, ts in use:
+        opts = [[sk == t] for t in ts] + [[sk != t for t in ts]]
+        cases = [c + o for c in cases for o in opts]
+    for c in cases:
+        s = z3.Solver()
+        s.set("timeout", timeout_ms)
+        s.set("auto_config", False)
+        s.set("mbqi", False)
+        s.add(*fs)
+        s.add(*c)
+        if s.check() != z3.unsat:
+            return _ite_split(z3, fs, ids, timeout_ms)
+    return "%d equality cases on %s" % (len(cases), ", ".join(str(sk) for sk, _ in use))
+
+
+def _ite_split(z3, fs, ids, timeout_ms):
+    """case distinction on the conditions of if-then-else terms that mention a skolem index (is the element the object that was
+    just written?): all 2^k combinations of up to 4 conditions, each decided by E-matching"""
+    conds, seen, memo = [], set(), {}
+
+    def mentions(t):
+        k = t.get_id()
+        if k not in memo:
+            memo[k] = (k in ids) or (mentions(t.body()) if z3.is_quantifier(t) else any(mentions(c) for c in t.children()))
+        return memo[k]
+
+    def walk(t, inq):
+        if (t.get_id(), inq) in seen:
+            return
+        seen.add((t.get_id(), inq))
+        if z3.is_quantifier(t):
+            walk(t.body(), True)
+            return
+        if z3.is_app(t) and t.decl().kind() == z3.Z3_OP_ITE:
+            c = t.arg(0)
+            if mentions(c) and not _has_var(z3, c) and not any(c.eq(x) for x in conds):
+                conds.append(c)
+        for c in t.children():
+            walk(c, inq)
+    for f in fs:
+        if z3.is_app(f) and f.decl().name().startswith(("hint!", "split!")):
+            continue
+        if mentions(f):
+            walk(f, False)
+    conds = conds[:4]
+    if not conds:
+        return None
+    import itertools
+    for bits in itertools.product((True, False), repeat=len(conds)):
+        s = z3.Solver()
+        s.set("timeout", timeout_ms)
+        s.set("auto_config", False)
+        s.set("mbqi", False)
+        s.add(*fs)
+        s.add(*[c if b else z3.Not(c) for c, b in zip(conds, bits)])
+        if s.check() != z3.unsat:
+            return None
+    return "%d if-then-else cases" % (2 ** len(conds))
+
+
+def _has_var(z3, t, memo={}):
+    k = t.get_id()
+    if k not in memo:
+        memo[k] = z3.is_var(t) or any(_has_var(z3, c) for c in t.children())
+    return memo[k]
 
 
 def solve(task):
@@ -102,7 +198,7 @@ def solve(task):
             out["reason"] = "ground pass: %s" % e
         # pass 1: E-matching only (fast, complete enough for the trigger-annotated VCs); pass 2: default configuration
         s = z3.SolverFor("ALL") if False else z3.Solver()
-        has_split = "split!Int" in smt2
+        has_split = "split!Int" in smt2 or "sk!" in smt2
         s.set("timeout", min(timeout_ms, 3000 if has_split else 20000))
         s.set("auto_config", False)
         s.set("mbqi", False)
@@ -110,7 +206,7 @@ def solve(task):
         r = s.check()
         if r != z3.unsat and has_split:
             try:
-                how = _case_split(z3, smt2, min(timeout_ms, 10000))
+                how = _case_split(z3, smt2, min(timeout_ms, 5000))
             except Exception as e:
                 how = None
                 out["reason"] += " | case split: %s" % e
